@@ -1281,7 +1281,7 @@ impl OutstationSession {
 
         for header in object_headers.iter() {
             empty = false;
-            iin2 = self.handle_single_write_header(header, database).await;
+            iin2 |= self.handle_single_write_header(header, database).await;
         }
 
         if empty {
